@@ -63,6 +63,8 @@ def eval_bits(path, expr):
 def truth_of(path, expr):
     """(leaves, f) such that expr is true iff f != 0, for `E != 0`, `0 != E` and bitwise E"""
     n = expr.strip_all_casts()
+    while n.k == "ParenExpr" and n.ch:
+        n = n.child(0).strip_all_casts()
     if n.k == "BinaryOperator" and n.get("op") == "!=":
         a, b = n.child(0), n.child(1)
         if C.const_of(b) == 0:
@@ -73,6 +75,20 @@ def truth_of(path, expr):
     if p in path.truth:
         return path.truth[p]
     return eval_bits(path, n)
+
+
+def positive(cond, pol):
+    """`!E` taken with polarity p is E taken with polarity not p (a guard clause `if (!(stb & sre)) {...; break;}` decides
+    the same thing as `if (stb & sre) ... else ...`)"""
+    n = cond
+    while True:
+        s = n.strip_all_casts()
+        while s.k == "ParenExpr" and s.ch:
+            s = s.child(0).strip_all_casts()
+        if s.k == "UnaryOperator" and s.get("op") == "!" and s.ch:
+            n, pol = s.child(0), not pol
+            continue
+        return s if s is not cond and n is not cond else cond, pol
 
 
 def reg_path_key(path, target):
@@ -152,6 +168,14 @@ def process_elem(path, n):
             path.env.pop(key, None)
         return
     if tp:
+        path.truth.pop(tp, None)
+        if v is None and op == "=":
+            # a truth value kept in a variable (`summary = (val & enable) != 0;` as a statement)
+            rs = rhs.strip_all_casts()
+            if rs.k == "BinaryOperator" and rs.get("op") == "!=":
+                tv = truth_of(path, rhs)
+                if tv is not None:
+                    path.truth[tp] = tv
         if v is not None:
             path.env[tp] = v
         else:
@@ -275,7 +299,7 @@ class RegSetModel:
             if si is not None:
                 lab = fn.edge_label(b, si)
                 if lab[0] in ("true", "false") and lab[1] is not None:
-                    steps.append(("branch", (lab[1], lab[0] == "true")))
+                    steps.append(("branch", positive(lab[1], lab[0] == "true")))
                 last = b.succs[si]
         if last is None:
             last = first_block
@@ -358,7 +382,7 @@ class RegSetModel:
                     if si is not None:
                         lab = clone.edge_label(b, si)
                         if lab[0] in ("true", "false") and lab[1] is not None:
-                            sub.append(("branch", (lab[1], lab[0] == "true")))
+                            sub.append(("branch", positive(lab[1], lab[0] == "true")))
                 if edges:
                     lastb = edges[-1][0].succs[edges[-1][1]]
                     if lastb is not None:
